@@ -159,8 +159,11 @@ def judge(case):
             if o2["status"] != "ok":
                 v.append(core.viol("C02/scaling_outcome", "scaling both permeances by 2^%d changes the outcome from returned to %s" % (jexp, o2["status"])))
                 break
-            judged_e += 1
             J2 = o2["fluxes"]
+            rng = [J[0], J[1], J[0] * k, J[1] * k, J2[0], J2[1], float(o2["y_star"].p), float(out["y_star"].p)]
+            if any((not math.isfinite(z)) or (z != 0.0 and abs(z) < 1e-290) or abs(z) > 1e290 for z in rng):
+                continue  # overflow / gradual underflow: scaling by a power of two is no longer exact there
+            judged_e += 1
             if not (core.bit_eq(J2[0], J[0] * k) and core.bit_eq(J2[1], J[1] * k) and core.bit_eq(float(o2["y_star"].p), float(out["y_star"].p))):
                 v.append(core.viol("C02/scaling", "permeances x 2^%d: fluxes %r instead of %r, permeate composition %r instead of %r" % (
                     jexp, J2, (J[0] * k, J[1] * k), float(o2["y_star"].p), float(out["y_star"].p))))
